@@ -692,11 +692,12 @@ def coq_poll(p, with_calls=True):
         res.append("(%s, %s)" % (zlit(t), d))
     sts = ["(%s, %s)" % (zlit(t), STATUS_COQ[s]) for t, s in p["statuses"]]
     cs = ["%s %s" % (c, zlit(t)) for c, t in p["calls"]]
+    sts_t = lst(sts) if sts else "(@nil (Z * status))"
+    res_t = lst(res) if res else "(@nil (Z * decision))"
+    ss_t = lst([zlit(t) for t in p["ss"]]) if p["ss"] else "(@nil Z)"
     if not with_calls:
-        return "(%s, %s, %s)" % (lst(sts) if sts else "[]", lst(res) if res else "[]",
-                                 lst([zlit(t) for t in p["ss"]]) if p["ss"] else "[]")
-    return "(%s, %s, %s, %s)" % (lst(sts) if sts else "[]", lst(res) if res else "[]",
-                                 lst([zlit(t) for t in p["ss"]]) if p["ss"] else "[]", lst(cs) if cs else "[]")
+        return "(%s, %s, %s)" % (sts_t, res_t, ss_t)
+    return "(%s, %s, %s, %s)" % (sts_t, res_t, ss_t, lst(cs) if cs else "(@nil call)")
 
 
 def run(ctx, replay=None):
@@ -833,6 +834,19 @@ def _run(ctx, replay):
                     bad[str(t)] = [rng.choice([0, 1]), "failed", False]
             specs.append(dict(kind=list(kind), seed=rng.randrange(10 ** 6), ntrials=ntr, workers=rng.randint(2, 4),
                               max_failures=mf, bad=bad, wait=True))
+        # synchronous Hyperband / DEHB with failure rates so high that a completed rung has fewer valid results than
+        # the next rung has slots; max_failures large: only the failure limit may end the run with an error
+        for _ in range(ctx.n(18, 200)):
+            kind = rng.choice([("synchb", "random"), ("synchb", "random", "max"), ("synchb_custom", "min"),
+                               ("synchb_custom", "max"), ("dehb",), ("dehb", "max")])
+            ntr = rng.randint(8, 20)
+            rate = rng.choice([0.6, 0.8, 1.0])
+            bad = {str(t): [rng.choice([0, 0, 1]), "failed", False] for t in range(ntr) if rng.random() < rate}
+            specs.append(dict(kind=list(kind), seed=rng.randrange(10 ** 6), ntrials=ntr, workers=rng.choice([1, 1, 2, 4]),
+                              max_failures=100, bad=bad, wait=rng.random() < 0.3))
+        # directed (b-ckpt's scenario): one worker, every job fails before its first report
+        specs.append(dict(kind=["synchb_custom", "min"], seed=2, ntrials=10, workers=1, max_failures=100,
+                          bad={str(t): [0, "failed", False] for t in range(10)}, wait=False))
         # directed: a trial that fails right after the report that is answered with PAUSE (both seen in one poll)
         specs.append(dict(kind=["hb", "promotion", "random"], seed=2, ntrials=12, workers=3, max_failures=3,
                           bad={"0": [0, "failed", True]}))
@@ -877,7 +891,7 @@ def _run(ctx, replay):
         ctx.h("B_max_failures", spec["max_failures"])
         ctx.h("B_on_trial_error_calls", errs_total)
         for (t, was_errored) in res["resumed"]:
-            if was_errored:
+            if was_errored and spec["kind"][0] == "hb":
                 ctx.h("B_errored_trial_resumed", "/".join(spec["kind"]))
                 ctx.violation("property", "Tuner run: trial %d, whose run ended with status failed / on_trial_error (in the poll "
                               "that also delivered its report answered with PAUSE), is resumed later (spec %r)" % (t, spec), case=case,
@@ -890,8 +904,19 @@ def _run(ctx, replay):
         named = None
         if out is not None:
             if out[0] != "ValueError" or not out[1].startswith("Trial - ") or not out[1].endswith(" failed"):
-                ctx.violation("property", "Tuner run ended with unexpected exception %r (spec %r)" % (out, spec), case=case,
-                              signature=dict(part="tuner", check="unexpected_exception", exception=out[0]))
+                sig = dict(part="tuner", check="unexpected_exception", exception=out[0], scheduler="/".join(spec["kind"]),
+                           family=spec["kind"][0], failure_rate_high=len(spec["bad"]) * 2 >= spec["ntrials"])
+                # a resume suggestion for a trial the scheduler was told (on_trial_error) has failed, never paused:
+                # synchronous get_top_list promotes failed entries when fewer valid results than next-rung slots exist
+                errored_resumed = [t for (t, was) in res["resumed"] if was]
+                if out[0] == "AssertionError" and "Cannot resume trial_id" in out[1] and errored_resumed and \
+                        spec["kind"][0] in ("synchb", "synchb_custom", "dehb"):
+                    sig = dict(scheduler="synchronous_hyperband" if spec["kind"][0] != "dehb" else "dehb",
+                               event="failed_trial_promoted_then_resume_trial_asserts", valid_lt_next_rung_slots=True)
+                    ctx.h("B_failed_trial_promoted_resume_asserts", "/".join(spec["kind"]))
+                ctx.violation("property", "Tuner run ended with an exception other than the failure-limit error: %r "
+                              "(max_failures=%d, failed runs=%d, spec %r)" % (out, spec["max_failures"], len(set(failed_ids)), spec),
+                              case=case, signature=sig)
             else:
                 named = int(out[1][len("Trial - "):-len(" failed")])
                 if named not in failed_ids:
@@ -913,7 +938,7 @@ def _run(ctx, replay):
                           "(wait_trial_completion_when_stopping=%r, %d polls after the limit was exceeded)" % (
                               res["num_failed"], spec["max_failures"], spec.get("wait", False), later_polls),
                           case=case, signature=dict(part="tuner", check="failure_limit_not_enforced"))
-        if out is not None and nfailed <= spec["max_failures"]:
+        if named is not None and nfailed <= spec["max_failures"]:
             ctx.violation("property", "failed runs = %d <= max_failures = %d, but outcome %r" % (nfailed, spec["max_failures"], out),
                           case=case, signature=dict(part="tuner", check="error_below_failure_limit"))
         # end of run against the model: done statuses in the order trials finished (last status per trial)
@@ -940,7 +965,7 @@ def _run(ctx, replay):
         # sees a failed trial that is running again): compare the end of the run only when the two counts agree
         if sum(1 for v in last.values() if v == "failed") == res["num_failed"]:
             pl = [coq_poll(p, with_calls=False) for p in res["polls"]]
-            ends_coq.append("(%s, %s, %s)" % (natlit(spec["max_failures"]), lst(pl) if pl else "[]",
+            ends_coq.append("(%s, %s, %s)" % (natlit(spec["max_failures"]), lst(pl) if pl else "(@nil poll_in)",
                                               "None" if named is None else "(Some %s)" % zlit(named)))
             ends_meta.append(dict(part="B", spec=spec, done=[(t, last[t]) for t in order], outcome=out))
         else:
